@@ -415,6 +415,17 @@ Theorem C11_nbhd_mask_exact : forall st nb,
 Proof. exact nbhd_mask_step. Qed.
 Print Assumptions C11_nbhd_mask_exact.
 
+(* legacy hex grids (finding / fix C11-5): the get_neighborhood_mask they execute - _HexGrid's own, once it has one,
+   else the inherited one - is translated as gen_nbhd_mask_h and computes exactly what the model runs for legacy grids *)
+Theorem C11_nbhd_mask_hex_of_source : forall dims nb, gen_nbhd_mask_h dims nb = gen_nbhd_mask_l dims nb.
+Proof. exact nbhd_mask_hex_agrees. Qed.
+Print Assumptions C11_nbhd_mask_hex_of_source.
+
+Example C11_nbhd_mask_hex_example :
+  gen_nbhd_mask_h [2; 2] [[0; 1]] = GOk [([0; 0], false); ([0; 1], true); ([1; 0], false); ([1; 1], false)] /\
+  gen_nbhd_mask_h [1; 1] [] = GOk [([0; 0], false)].
+Proof. vm_compute. split; reflexivity. Qed.
+
 (* aggregate / aggregate_property over an attached layer: np.sum is the sum, np.mean the sum over the
    number of cells, np.max / np.min an attained bound - of exactly the values the cells show through
    their attribute, cell by cell *)
@@ -456,3 +467,19 @@ Example C11_round3_example :
   dtype_result 1 UBin (FAdd 8) 2 = 2 /\ dtype_result 0 UUn FNeg 0 = DT_TYPEERROR /\ dtype_result 1 UBin (FAdd 1) 0 = 1 /\
   admissible 1 UBin (FAdd 8) 2 = false /\ admissible 1 PyFn (FMax 1) 0 = false /\ admissible 2 UBin (FMax 3) 1 = true.
 Proof. vm_compute. repeat split. Qed.
+
+(* PropertyLayer.select_cells(condition, return_list) of a single layer (both implementations): list and
+   mask form select exactly the coordinates whose value satisfies the condition, in row-major order *)
+Theorem C11_layer_select_exact : forall st r cd id L,
+  resolve st r = Some id -> get_obj st id = Some L ->
+  let m := map (fun kx : coord * Z => (fst kx, eval_cond cd (snd kx))) (l_data L) in
+  (forall aslist, step st (LayerSelect r cd aslist) = (st, ROk (select_obs m aslist))) /\
+  map fst m = akeys (l_data L) /\
+  forall c, In c (mask_list m) <-> exists x, In (c, x) (l_data L) /\ eval_cond cd x = true.
+Proof. exact layer_select_exact. Qed.
+Print Assumptions C11_layer_select_exact.
+
+Example C11_layer_select_example :
+  snd (step ex_st (LayerSelect (ByName 1) (CGe, 2) true)) = ROk [2; 0; 1; 1; 0] /\
+  snd (step ex_st (LayerSelect (ByHandle 1) (CLt, 2) false)) = ROk [1; 0; 0; 1].
+Proof. vm_compute. split; reflexivity. Qed.
